@@ -95,13 +95,18 @@ theorem RescObj.step_spec (o : RescObj α) (hc : o.Consistent) (op : Op α)
         (by first | rfl | trivial), (by first | rfl | trivial), by rw [hfw]⟩
   | setBreaks bps =>
     simp only [RescObj.step] at hne ⊢
-    cases hcmp : rescCompute o.tab bps with
-    | none => rw [hcmp] at hne; exact absurd rfl hne
-    | some fw =>
-      have hfw := rescCompute_some o.tab bps fw hcmp
-      simp only [nextTab, nextBps, nextDv, nextD2v, rescSpec]
-      refine ⟨⟨hfw, by simp, by simp, by simp⟩, (by first | rfl | trivial), (by first | rfl | trivial),
-        (by first | rfl | trivial), (by first | rfl | trivial), by rw [hfw]⟩
+    by_cases hok : breaksOk o.tab.T bps = true
+    · simp only [hok, Bool.not_true, Bool.false_eq_true, if_false] at hne ⊢
+      cases hcmp : rescCompute o.tab bps with
+      | none => rw [hcmp] at hne; exact absurd rfl hne
+      | some fw =>
+        have hfw := rescCompute_some o.tab bps fw hcmp
+        simp only [nextTab, nextBps, nextDv, nextD2v, rescSpec]
+        refine ⟨⟨hfw, by simp, by simp, by simp⟩, (by first | rfl | trivial), (by first | rfl | trivial),
+          (by first | rfl | trivial), (by first | rfl | trivial), by rw [hfw]⟩
+    · have hok' : breaksOk o.tab.T bps = false := by simpa using hok
+      simp only [hok', Bool.not_false, if_true] at hne
+      exact absurd rfl hne
   | logLik =>
     simp only [RescObj.step, nextTab, nextBps, nextDv, nextD2v, rescSpec]
     exact ⟨⟨h1, h2, h3, h4⟩, (by first | rfl | trivial), (by first | rfl | trivial), (by first | rfl | trivial),
@@ -283,7 +288,13 @@ theorem LogObj.step_spec (o : LogObj α) (hc : o.Consistent) (op : Op α)
   | setTables t =>
     exact ⟨⟨rfl, by simp [LogObj.step], by simp [LogObj.step], by simp [LogObj.step]⟩, rfl, rfl, rfl, rfl, rfl⟩
   | setBreaks bps =>
-    exact ⟨⟨rfl, by simp [LogObj.step], by simp [LogObj.step], by simp [LogObj.step]⟩, rfl, rfl, rfl, rfl, rfl⟩
+    simp only [LogObj.step] at hne ⊢
+    by_cases hok : breaksOk o.tab.T bps = true
+    · simp only [hok, Bool.not_true, Bool.false_eq_true, if_false]
+      exact ⟨⟨rfl, by simp, by simp, by simp⟩, rfl, rfl, rfl, rfl, rfl⟩
+    · have hok' : breaksOk o.tab.T bps = false := by simpa using hok
+      simp only [hok', Bool.not_false, if_true] at hne
+      exact absurd rfl hne
   | logLik =>
     exact ⟨⟨h1, h2, h3, h4⟩, rfl, rfl, rfl, rfl, by simp only [LogObj.step, logSpec, nextTab, nextBps]; rw [h1]⟩
   | posterior =>
@@ -401,7 +412,15 @@ theorem LowObj.run_spec (o : LowObj α) (hc : o.logLik = lowCompute o.tab o.maxS
     simp only [LowObj.run, lowSpecRun]
     cases op with
     | setTables t => rw [ih (o.step (.setTables t)).1 rfl hd0 hd20 hrest hvar']; rfl
-    | setBreaks b => rw [ih (o.step (.setBreaks b)).1 rfl hd0 hd20 hrest hvar']; rfl
+    | setBreaks b =>
+      by_cases hok : breaksOk o.tab.T b = true
+      · have hst : o.step (.setBreaks b) = ({ o with bps := b, logLik := lowCompute o.tab o.maxSize b }, .val (lowCompute o.tab o.maxSize b)) := by
+          simp only [LowObj.step, hok, Bool.not_true, Bool.false_eq_true, if_false]
+        rw [hst] at hrest ⊢
+        rw [ih ({ o with bps := b, logLik := lowCompute o.tab o.maxSize b } : LowObj α) rfl hd0 hd20 hrest hvar']; rfl
+      · have hok' : breaksOk o.tab.T b = false := by simpa using hok
+        simp only [LowObj.step, hok', Bool.not_false, if_true] at h0
+        exact absurd rfl h0
     | logLik =>
       rw [ih (o.step .logLik).1 hc hd0 hd20 hrest hvar']
       simp only [LowObj.step, lowSpec, nextTab, nextBps]; rw [hc]
